@@ -82,6 +82,7 @@ def parse_obs(impl):
     if " # max=" not in impl:
         return None
     body, _, mx = impl.rpartition(" # max=")
+    body, _, _ = body.partition(" # att=")     # the submitted-closures counter is read by parse_att
     tasks = []
     for ts in body.split(" ; "):
         o = {"kind": "unsent", "invs": [], "onerr": [], "get": None, "get2": None, "err": None, "ret": None, "len": None}
@@ -115,6 +116,13 @@ def parse_obs(impl):
                 o["err"] = None if w[4:] == "-" else w[4:]
         tasks.append(o)
     return tasks, int(mx)
+
+
+def parse_att(impl):
+    """number of closures handed to sendInnerCallback (passages of hook site 3: one per runTaskOnce), or None"""
+    if " # att=" not in impl:
+        return None
+    return int(impl.rpartition(" # att=")[2].split()[0])
 
 
 class AntsSpec(Spec):
@@ -216,6 +224,25 @@ class C07(AntsSpec):
             r = self.judge(k, t, o, park1, sc["basecancel"])
             if r:
                 return r
+        return self.quiescent_check(obs, parse_att(impl))
+
+    @staticmethod
+    def quiescent_check(obs, att):
+        """C07_quiescent_invocations on the implementation's own trace: once the pool has nothing left to do (every Send
+        returned, every accepted task's Get2 unblocked, every started handler returned — the observable content of
+        `Quiescent`, cf. C07_quiescent_shape) each attempt that was begun (each runTaskOnce, counted at hook site 3 by the
+        dispatcher) has had exactly one handler invocation."""
+        if att is None:
+            return None
+        quiescent = all(o["kind"] == "dis" or (o["kind"] == "acc" and o["get"] is not None and
+                                                all(i["end"] is not None for i in o["invs"])) for o in obs)
+        if not quiescent:
+            return None
+        inv = sum(len(o["invs"]) for o in obs)
+        if inv != att:
+            return ("attempt-without-invocation" if inv < att else "invocation-without-attempt",
+                    "at quiescence (all tasks finished, all handlers returned) %d attempts were begun (runTaskOnce calls) "
+                    "but the handlers were invoked %d times" % (att, inv))
         return None
 
     @staticmethod
